@@ -80,6 +80,20 @@ def check(case):
             kw.pop("all_classes_mode", None)
         kw["shape_map_raw"] = "\n".join("%s@%s" % (selectors.render(it["sel"], c10.NSD, it["styles"]), it["label"]) for it in sm["items"])
         kw["namespaces_dict"] = dict(c10.NSD)
+        # model of the shape-map selection (used only to recognise the known finding C02-GONEREF, see below)
+        sm_sel, sm_label_of = {}, {}
+        for it in sm["items"]:
+            lst = sm_sel.setdefault(it["label"], [])
+            for a in selectors.evaluate(it["sel"], triples_):
+                if a[1] not in lst:
+                    lst.append(a[1])
+            sm_label_of[it["label"]] = it["label"].strip("<>")
+        if sm["with_all"]:
+            for c_, nodes in refmodel.select_by_classes(triples_, case["g"]["inst_prop"]).items():
+                sm_sel[c_] = nodes
+                sm_label_of[c_] = refmodel.class_label(c_)
+        sm_model = refmodel.Model(triples_, sm_sel, sm_label_of, case["g"]["inst_prop"], case["cfg"].get("inverse_paths", False)) \
+            if len(set(sm_label_of.values())) == len(sm_label_of) else None
     else:
         kw, triples = common.base_kwargs(case)
     cfg = case["cfg"]
@@ -103,6 +117,7 @@ def check(case):
     nt = False
     dec = cfg.get("disable_exact_cardinality", False)
     kf_nonlit = []
+    kf_goneref = []
     if case.get("reuse_order"):
         labels.add("reused-shaper")
 
@@ -123,6 +138,17 @@ def check(case):
                 return violation("shape %s present at t=%r but not at t=%r\n--- t1 ---\n%s\n--- t2 ---\n%s" % (lab, t2, t1, texts[t1], texts[t2]), labels, True)
             ca = a[lab]
             kb, ka = set(cb.cons), set(ca.cons)
+            if not kb <= ka and sm is not None and sm_model is not None:
+                # C02-GONEREF makes a non-literal key vanish at the LOWER threshold: there the winning alternative is a reference to
+                # a shape without constraints (a shape-map shape on nodes that are never subjects), and the constraint is dropped with
+                # that shape instead of falling back to IRI; above the reference's own frequency the plain node kind wins and the key
+                # is printed.  Excused only when every vanished key has exactly that signature at t1.
+                S_ = next((k_ for k_, v_ in sm_label_of.items() if v_ == lab), None)
+                gone = kb - ka
+                if S_ is not None and all(k_[1] == ("nonliteral",) and oracle._goneref_sig(sm_model, S_, k_[0], t1, a, sm_label_of, cfg.get("keep_less_specific", True))
+                                          for k_ in gone):
+                    kf_goneref.append((lab, sorted(map(str, gone)), t1, t2))
+                    continue
             if not kb <= ka:
                 return violation("keys %s of %s present at t=%r but not at t=%r\n--- t1 ---\n%s\n--- t2 ---\n%s" % (sorted(kb - ka), lab, t2, t1, texts[t1], texts[t2]), labels, True)
             if kb < ka:
@@ -142,6 +168,8 @@ def check(case):
         if nt:
             labels.add("nontrivial")
         labels.add("grid-%d" % min(len(case["grid"]), 9))
+        if kf_goneref:
+            return known("C02-GONEREF", repr(kf_goneref[0]), labels, nt)
         if kf_nonlit:
             return known("C12-NONLIT", repr(kf_nonlit[0]), labels, nt)
         return ok(labels, nt)
